@@ -356,3 +356,22 @@ def layout_of(envs):
         v = json.loads(body)
         out[v["gid"] - 1] = v
     return out, res.stats
+
+
+def decide_decodes(items):
+    """items: [{env, inp, ord}] -> (verdicts, stats): the reference decoder's
+    (spec/WireDecGiven.tla) verdict record per item: verdict, reason, dwalk, pos."""
+    path = _write_given([{"env": it["env"], "inp": it["inp"], "ord": it["ord"]} for it in items])
+    c = dict(GIVEN_CONSTS, FaultKinds="{}", DecOrders="{}")
+    res = run_tlc("WireDecGiven", c, invariants=["DecoderInBounds", "AcceptConsumesAll", "DGDump"],
+                  prefix=("DV", "ILLEGAL"), spec="DGSpec", env={"GIVEN_FILE": path})
+    verdicts = [None] * len(items)
+    for tag, body in res.lines:
+        if tag == "ILLEGAL":
+            raise MachineryError("given environment %s is not legal per the specification" % body)
+        v = json.loads(body)
+        verdicts[v["gid"] - 1] = v
+    missing = [i for i, v in enumerate(verdicts) if v is None]
+    if missing:
+        raise MachineryError("reference decoder gave no verdict for %d inputs (first: item %d)" % (len(missing), missing[0]))
+    return verdicts, res.stats
